@@ -82,6 +82,55 @@ pub fn run(rt: &tokio::runtime::Runtime, op: u64, a: &[Value]) -> Value {
                 }
             })
         }
+        // [file name, content, components below the fresh directory] -> the content is put at those components (NOT at
+        // outdir.join(file)); base_url.join(file) is fetched through FilesystemTransport, outdir = <fresh>/t
+        2 => {
+            let file = string(&a[0]);
+            let content = bytes(&a[1]);
+            let comps: Vec<String> = list(&a[2]).iter().map(string).collect();
+            if comps.is_empty() || comps.iter().any(|c| c.is_empty() || c == "." || c == ".." || c.contains('/') || c.contains('\0')) {
+                return json!([9]);
+            }
+            let dir = tempfile::tempdir().expect("tempdir");
+            let top: PathBuf = std::fs::canonicalize(dir.path()).expect("canon");
+            let outdir = top.join("t");
+            std::fs::create_dir_all(&outdir).unwrap();
+            let mut dest = top.clone();
+            for c in &comps {
+                dest = dest.join(c);
+            }
+            if let Some(parent) = dest.parent() {
+                if std::fs::create_dir_all(parent).is_err() {
+                    return json!([9]);
+                }
+            }
+            if dest.is_dir() || std::fs::write(&dest, &content).is_err() {
+                return json!([9]);
+            }
+            let base_url = Url::from_directory_path(&outdir).expect("dir url");
+            let url = match base_url.join(&file) {
+                Ok(u) => u,
+                Err(_) => return json!([2]),
+            };
+            rt.block_on(async {
+                match FilesystemTransport.fetch(url).await {
+                    Err(e) => match e.kind() {
+                        tough::TransportErrorKind::FileNotFound => json!([1]),
+                        _ => json!([2]),
+                    },
+                    Ok(stream) => {
+                        let got: Result<Vec<bytes::Bytes>, _> = stream.try_collect().await;
+                        match got {
+                            Ok(chunks) => json!([0, of_bytes(&chunks.concat())]),
+                            Err(e) => match e.kind() {
+                                tough::TransportErrorKind::FileNotFound => json!([1]),
+                                _ => json!([2]),
+                            },
+                        }
+                    }
+                }
+            })
+        }
         _ => json!([999]),
     }
 }
